@@ -86,7 +86,57 @@ def to_formula(e, pol=True):
         return f if pol else f_not(f)
     if isinstance(e, ast.Constant) and isinstance(e.value, bool):
         return TRUE if (e.value == pol) else FALSE
+    if isinstance(e, ast.IfExp):
+        c = to_formula(e.test, True)
+        f = f_or(f_and(c, to_formula(e.body, True)), f_and(f_not(c), to_formula(e.orelse, True)))
+        return f if pol else f_not(f)
+    inner = _first_ifexp(e)
+    if inner is not None:
+        # lift a conditional sub-expression:  P[a if c else b]  ==  (c and P[a]) or (not c and P[b])
+        c = to_formula(inner.test, True)
+        from .fold import fold
+        fa = to_formula(fold(_replace_node(e, inner, inner.body)), True)
+        fb = to_formula(fold(_replace_node(e, inner, inner.orelse)), True)
+        f = f_or(f_and(c, fa), f_and(f_not(c), fb))
+        return f if pol else f_not(f)
     return ('lit', e, pol)
+
+
+def _first_ifexp(e):
+    todo = [e]
+    while todo:
+        n = todo.pop(0)
+        if isinstance(n, ast.Lambda):
+            continue
+        if isinstance(n, ast.IfExp) and n is not e:
+            return n
+        todo.extend(ast.iter_child_nodes(n))
+    return None
+
+
+def _replace_node(root, target, repl):
+    import copy
+
+    def rec(n):
+        if n is target:
+            return repl
+        if not isinstance(n, ast.AST):
+            return n
+        vals = {}
+        changed = False
+        for fld, old in ast.iter_fields(n):
+            if isinstance(old, list):
+                new = [rec(x) if isinstance(x, ast.AST) else x for x in old]
+                changed = changed or any(a is not b for a, b in zip(new, old))
+                vals[fld] = new
+            elif isinstance(old, ast.AST):
+                new = rec(old)
+                changed = changed or new is not old
+                vals[fld] = new
+            else:
+                vals[fld] = old
+        return type(n)(**vals) if changed else n
+    return rec(root)
 
 
 def literals(f, out=None):
@@ -304,8 +354,10 @@ class Universe(object):
             for a, b in zip(cs, cs[1:]):
                 pts.add((a + b) / 2)
             pts |= set(cs)
-        if key.startswith('num:len[') and key.count('len[') == 1 and ' + ' not in key and '*' not in key.split(']')[-1]:
-            nonneg = [x for x in pts if x >= 0]       # a length is never negative
+        count_of_nulls = (key.startswith('num:call:sum[(call:pd.isnull[') or key.startswith('num:call:sum[(call:pd.isna[')) \
+            and ' + ' not in key and '*' not in key
+        if count_of_nulls or key.startswith('num:len[') and key.count('len[') == 1 and ' + ' not in key and '*' not in key.split(']')[-1]:
+            nonneg = [x for x in pts if x >= 0]       # a length / a count of nulls is never negative
             if nonneg:
                 return sorted(nonneg)
         return sorted(pts)
